@@ -31,6 +31,11 @@ id="$name.$$"
 } > "$ctl/$id.start"
 env -0 > "$ctl/$id.env" 2>/dev/null
 n=$(ls "$ctl" | grep -c "^$name\..*\.start$")
+# a task that tidies its output directory first / dumps its own parsed configuration under the name Conductor uses
+if [ -e "$ctl/tidy_$name" ]; then
+  rm -f "$COND_OUT"/*.json
+  if [ "$(cat "$ctl/tidy_$name")" = "clobber" ]; then echo '{"parsed": "by the task itself"}' > "$COND_OUT/args.json"; echo '["mine"]' > "$COND_OUT/options.json"; fi
+fi
 echo "payload $name run $n $*" > "$COND_OUT/payload.txt"
 mkdir -p "$COND_OUT/sub/deep"
 echo "nested $n" > "$COND_OUT/sub/deep/file.bin"
@@ -98,6 +103,11 @@ def build_store_project(root, scn):
     os.makedirs(os.path.join(root, "..", "outside", "x.task.5"), exist_ok=True)
     with open(os.path.join(root, "..", "outside", "x.task.5", "keep.txt"), "w") as f:
         f.write("sentinel\n")
+    # a sibling of cond-out whose NAME extends "cond-out" (an older output tree kept around), with version-like directories
+    for rel in ("fig1.task.5", "sweep/run.task.7"):
+        os.makedirs(os.path.join(root, "cond-out-2023", rel), exist_ok=True)
+        with open(os.path.join(root, "cond-out-2023", rel, "keep.txt"), "w") as f:
+            f.write("kept results\n")
     g = scn.get("git")
     if g:
         P.git(root, "init", "-q")
@@ -276,7 +286,13 @@ def abstract_state(ps, I, outside_digest, has_args=None, rebase=0):
         complete = {"done.txt", "stdout.log", "stderr.log"} <= files
         if has_args is not None and v["task"] in has_args:
             a, o = has_args[v["task"]]
-            complete = complete and (("args.json" in files) == a) and (("options.json" in files) == o)
+            complete = complete and (("args.json" in files) == bool(a)) and (("options.json" in files) == bool(o))
+            # ... and the records DECODE to what the task declares (whatever the task itself did to files of that name)
+            rec = v.get("records") or {}
+            if a and not isinstance(a, bool) and "args.json" in rec:
+                complete = complete and rec["args.json"] == a
+            if o and not isinstance(o, bool) and "options.json" in rec:
+                complete = complete and rec["options.json"] == o
         vd.append([I("id:" + v["task"]), v["ts"] - rebase, I("d:" + str(v["digest"])), 1 if complete else 0])
     td = [[I("id:" + rel), I("d:" + str(v["digest"]))] for rel, v in sorted(ps["tdirs"].items())]
     # don't-care entries: archive files, the temporary archive index, the staging directory of restore
@@ -289,7 +305,8 @@ def abstract_state(ps, I, outside_digest, has_args=None, rebase=0):
 
 def outside_digest(root):
     t = CLI.snapshot_tree(os.path.join(root, "..", "outside"))
-    return C.scenario_hash(sorted(t.items()))
+    t2 = CLI.snapshot_tree(os.path.join(root, "cond-out-2023"))
+    return C.scenario_hash([sorted(t.items()), sorted(t2.items())])
 
 
 # --------------------------------------------------------------------------------------- histories
@@ -483,6 +500,12 @@ def run_history(scn):
             for name, code in st.get("exits", {}).items():
                 with open(os.path.join(ctl, "exit_" + name), "w") as f:
                     f.write(str(code))
+            for f in os.listdir(ctl):
+                if f.startswith("tidy_"):
+                    os.unlink(os.path.join(ctl, f))
+            for name, mode in st.get("tidy", {}).items():
+                with open(os.path.join(ctl, "tidy_" + name), "w") as f:
+                    f.write(mode)
             clock = st.get("clock", clock)
             argv = list(st["argv"])
             head, dirty = None, False
@@ -549,7 +572,7 @@ def to_store_trace(hid, scn, hist):
     history (retype steps are only placed after the last run and before the archive steps that consult the graph)."""
     I = Interner()
     tasks = retyped_tasks(scn)
-    has_args = {"//%s:%s" % (t.get("pkg", ""), t["name"]): (bool(t.get("args")), bool(t.get("options")))
+    has_args = {"//%s:%s" % (t.get("pkg", ""), t["name"]): (t.get("args") or False, t.get("options") or False)
                 for t in scn["project"]["tasks"] if t["kind"] == "run_experiment"}
     idents = ["//%s:%s" % (t.get("pkg", ""), t["name"]) for t in tasks]
     from .runobs import resolve_dep, KIND
